@@ -79,7 +79,7 @@ inductive Ev
   /-- the factory's handler hit `panic!` (RouteResult::Backlog with a targeted worker) -/
   | panicked
   /-- quiescent snapshot: up?, the three queries (none = no answer), live worker actors -/
-  | snap (up : Bool) (q act cap : Option Nat) (live : List Nat)
+  | snap (up : Bool) (q act cap : Option Nat) (live : List Nat) (wq : Option (List (Nat × Nat)))
   deriving DecidableEq, Repr
 
 /-- Worker actor (environment). -/
@@ -154,6 +154,8 @@ structure W where
   armed : Bool
   nextCalc : Nat
   answers : List (Option Nat)
+  /-- worker queue lengths right after the last `route_message` of the current step -/
+  lastWq : Option (List (Nat × Nat)) := none
   deriving Repr
 
 def CALCULATE_FREQUENCY : Nat := 100000000
@@ -403,7 +405,7 @@ def W.routeInner (w : W) (j : Job) (hint : Option Nat) : RouteResult × W :=
       (.handled, { w with pool := setW w.pool p, env := e })
 
 /-- `RateLimitedRouter::route_message` (`rl = none`: a limiter that always admits). -/
-def W.routeMessage (w : W) (j : Job) (hint : Option Nat) : RouteResult × W :=
+def W.routeLimited (w : W) (j : Job) (hint : Option Nat) : RouteResult × W :=
   match w.rl with
   | none => w.routeInner j hint
   | some (c, lb) =>
@@ -419,6 +421,12 @@ def W.routeMessage (w : W) (j : Job) (hint : Option Nat) : RouteResult × W :=
       if r == .handled then
         (r, { w with rl := w.rl.map fun (c, lb) => (c, LeakyBucket.bump lb) })
       else (r, w)
+
+/-- the router as the factory calls it; the (ghost) snapshot of the worker queue lengths is
+what the harness' transparent wrapper records after each call -/
+def W.routeMessage (w : W) (j : Job) (hint : Option Nat) : RouteResult × W :=
+  let (r, w) := w.routeLimited j hint
+  (r, { w with lastWq := some (w.pool.map fun p => (p.wid, p.mq.length)) })
 
 /-! ## The factory queue (`DefaultQueue` / `PriorityQueue<_, _, StandardPriority, _, 5>`)
 
@@ -859,7 +867,7 @@ def W.stepOp (w : W) (op : Op) (t0 tq te : Nat) : W :=
   let w := w.queries
   let w := W.advanceTo te (advanceFuel w te) w
   let ans := fun (i : Nat) => (w.answers.getD i none)
-  w.emit (.snap (!w.stopped) (ans 0) (ans 1) (ans 2) w.live)
+  W.emit { w with lastWq := none } (.snap (!w.stopped) (ans 0) (ans 1) (ans 2) w.live w.lastWq)
 
 structure CaseCfg where
   cfg : Cfg
@@ -877,7 +885,7 @@ def init (c : CaseCfg) : W :=
     queue := [], disc := c.disc, drain := .notDraining
     env := { actors := [], log := [], now := 0, hasHandler := c.cfg.hasHandler, sup := [] }
     nextAid := 0, stopSignal := false, stopped := false, inbox := [], blocked := false, armed := false
-    nextCalc := CALCULATE_FREQUENCY, answers := [] }
+    nextCalc := CALCULATE_FREQUENCY, answers := [], lastWq := none }
   let w := w.growPool c.n   -- pre_start builds workers 0..n-1 exactly like grow_pool on an empty pool
   W.emit { w with poolSize := c.n } (.hook .started)
 
